@@ -81,15 +81,16 @@ type GhostField struct {
 }
 
 type Specs struct {
-	Funcs     map[string]*FuncSpec
-	SpecFns   map[string]*SpecFn // key pkgpath + "." + name, also bare name for assumed
-	Ghosts    map[string]*GhostField
-	Nullable  map[string]bool // "pkgpath.Type.field"
-	UFs       map[string]*UFDecl
-	Axioms    map[string][]Clause // closed facts about an uninterpreted function, assumed where it is used
-	GhostVars map[string]string   // global ghost variables: name -> type
-	Folds     map[string]*FoldDecl
-	Files     []string
+	Funcs      map[string]*FuncSpec
+	SpecFns    map[string]*SpecFn // key pkgpath + "." + name, also bare name for assumed
+	Ghosts     map[string]*GhostField
+	Nullable   map[string]bool // "pkgpath.Type.field"
+	UFs        map[string]*UFDecl
+	Axioms     map[string][]Clause // closed facts about an uninterpreted function, assumed where it is used
+	Implements map[string]string   // interface type (as written) -> its only implementation (assumption)
+	GhostVars  map[string]string   // global ghost variables: name -> type
+	Folds      map[string]*FoldDecl
+	Files      []string
 }
 
 func newSpecs() *Specs {
@@ -238,6 +239,19 @@ func (s *Specs) loadSpecFile(path, pkgPath string, assumed bool) error {
 				}
 			}
 			s.UFs[u.Name] = u
+			cur = nil
+		case "implements":
+			// implements <iface type> <concrete type>: every non-nil value of the interface type has this
+			// dynamic type (ASSUMPTION: the only implementation in the program); interface calls then use the
+			// concrete method's contract
+			fs := strings.Fields(rest)
+			if len(fs) != 2 {
+				return fmt.Errorf("%s: implements <interface> <type>", where)
+			}
+			if s.Implements == nil {
+				s.Implements = map[string]string{}
+			}
+			s.Implements[fs[0]] = fs[1]
 			cur = nil
 		case "axiom":
 			// axiom <uf name>: <closed expr> -- assumed wherever that uninterpreted function is used
